@@ -1259,6 +1259,13 @@ class AV:
                 for m_ in self._callee_param_mutations(n_, fr):
                     if m_ in fr.env and m_ not in assigned:
                         assigned.append(m_)
+        for k in assigned:
+            v_ = fr.env.get(k)
+            if isinstance(v_, tuple) and v_ and v_[0] == "call" and v_[1] == "itertools.count" and len(v_[2]) == 1:
+                # an itertools.count() advanced by next() in the loop: the variable holds the next value to hand out
+                fr.env[k] = v_[2][0]
+                fr.env["<count:" + k + ">"] = True
+                inner_env["<count:" + k + ">"] = True
         pre = {k: fr.env.get(k) for k in assigned}
         for k in assigned:
             if k in fr.env:
@@ -2060,6 +2067,19 @@ class AV:
                 return NONE
             fr.env[name] = unk(f"{name}.{fn.attr}(...) not modelled")
             return unk(f"{name}.{fn.attr}(...) not modelled")
+        # itertools.count(): an integer that next() reads and advances (the variable holds the next value)
+        if d_ in ("itertools.count", "count") and len(args) <= 1 and (d_ == "itertools.count" or self._imports(fr.rel).get("count", "").startswith("itertools")):
+            start = args[0] if args else dict(kwargs).get("start", C(0))
+            if not kwargs or set(dict(kwargs)) <= {"start"}:
+                return ("call", "itertools.count", (start,), ())
+        if isinstance(fn, ast.Name) and fn.id == "next" and len(n.args) == 1 and isinstance(n.args[0], ast.Name) and n.args[0].id in fr.env:
+            cur = fr.env[n.args[0].id]
+            if cur[0] == "call" and cur[1] == "itertools.count" and len(cur[2]) == 1:
+                cur = cur[2][0]
+                fr.env["<count:" + n.args[0].id + ">"] = True
+            if fr.env.get("<count:" + n.args[0].id + ">"):
+                fr.env[n.args[0].id] = self._binop(ast.Add, cur, C(1))
+                return cur
         # builtins and string / list methods with exact models
         m = self._builtin(n, d_, args, kwargs, fr)
         if m is not None:
@@ -2799,6 +2819,8 @@ def _assigned(st) -> list[str]:
             out.append(n.func.value.id)
         elif isinstance(n, (ast.Yield, ast.YieldFrom)):
             out.append("<yield>")
+        elif isinstance(n, ast.Call) and isinstance(n.func, ast.Name) and n.func.id == "next" and len(n.args) == 1 and isinstance(n.args[0], ast.Name):
+            out.append(n.args[0].id)  # next(c) advances the iterator c
     return out
 
 
@@ -2815,6 +2837,8 @@ def _mutated_names(body) -> list[str]:
                     out.append(b.id)
             elif isinstance(n, ast.Subscript) and isinstance(n.ctx, ast.Store) and isinstance(n.value, ast.Name):
                 out.append(n.value.id)
+            elif isinstance(n, ast.Call) and isinstance(n.func, ast.Name) and n.func.id == "next" and len(n.args) == 1 and isinstance(n.args[0], ast.Name):
+                out.append(n.args[0].id)
     return out
 
 
